@@ -1988,6 +1988,9 @@ func (c *Certificate) CreateCRL(rand io.Reader, priv interface{}, revokedCerts [
 	case SM3:
 		break
 	default:
+		if _, ok := key.Public().(*sm2.PublicKey); ok {
+			break // an SM2 signer always receives the raw TBS, whatever hash the algorithm names
+		}
 		h := hashFunc.New()
 		h.Write(tbsCertListContents)
 		digest = h.Sum(nil)
@@ -2584,6 +2587,9 @@ func CreateRevocationList(rand io.Reader, template *RevocationList, issuer *Cert
 	case SM3:
 		break
 	default:
+		if _, ok := priv.Public().(*sm2.PublicKey); ok {
+			break // an SM2 signer always receives the raw TBS, whatever hash the algorithm names
+		}
 		h := hashFunc.New()
 		h.Write(tbsCertListContents)
 		digest = h.Sum(nil)
